@@ -271,7 +271,26 @@ Container(s, r) == {e \in Real(s) : e.c = r.c /\ r.a \in Range(e.ins)}
 \* Deviation "single-remote-operand": what skoolhtml._get_asm_entry did before the fix c7a4346 (found by this
 \* check): an operand that refers to a remote entry was linked to '#anchor' on the *current* single page.
 SinglePageIgnoresExplicitAnchor == TRUE
+
+\* @remote (asm.rst): "@remote=code:address[,address2...]" in the skool file of disassembly c declares the entry at
+\* `address` of disassembly `code` and entry points in it; only declared addresses of another disassembly are linked
+\* to the page of their entry.  A skool file may hold several directives for one code id and for one entry of it (one
+\* next to each routine that refers to it, say, each naming the entry points that routine needs): what is linkable is
+\* the union of everything they name.  In a built site the file of disassembly c holds one directive per reference
+\* that leaves c - next to the referring routine, or at the top of the main file for the [Page:*] page - naming the
+\* containing entry and, when it is not the first instruction, the addressed entry point.
+RefsOf(s, c) == UNION {Range(e.refs) : e \in OfCode(s, c)}
+                \cup (IF c = 1 THEN UNION {Range(g.refs) : g \in Range(s.pages)} ELSE {})
+Directives(s, c) == UNION {{[c |-> r.c, a |-> te.a, pts |-> {r.a} \ {te.a}] : te \in Container(s, r)}
+                             : r \in {x \in RefsOf(s, c) : x.c # c}}
+Declared(s, c, rc) == UNION {{d.a} \cup d.pts : d \in {x \in Directives(s, c) : x.c = rc}}
+
 RefLink(s, p, from, r) ==
+  LET fc == IF from = <<>> THEN 1 ELSE from.c IN
+  IF r.c # fc /\ r.a \notin Declared(s, fc, r.c)
+  THEN \* an undeclared address of another disassembly: an operand is not linked, #R takes it for an entry of its own
+       (IF r.op = 1 THEN {} ELSE {Href(s, p, AsmFile(s, r.c, r.a), IF s.single = 1 THEN Anchor(s, r.a) ELSE "")})
+  ELSE
   {IF s.single = 1
    THEN (IF Deviation = "single-remote-operand" /\ r.op = 1 /\ from.c # te.c
          THEN [href |-> <<>>, frag |-> Anchor(s, r.a)]
